@@ -117,6 +117,8 @@ def call_argument_case():
 
 
 def run(name=""):
+    if "ParallelLoopTrans" in name:
+        return validate_cases()
     if "_is_loop_carried" in name:
         return array_cases()
     if "infer_sharing" in name:
@@ -133,3 +135,34 @@ def known(kid):
     if kid == "call-argument-before-write-private":
         return bool(call_argument_case().get("confirmed"))
     return bool(scalar_cases(kid).get("confirmed"))
+
+
+def validate_cases():
+    """loops that the dependence analysis does not report independent (a
+    scalar reduction, a carried array dependence, a write-write race) must
+    be refused by the OpenMP loop transformations without 'force'"""
+    from psyclone.psyir.frontend.fortran import FortranReader
+    from psyclone.psyir.nodes import Loop
+    from psyclone.transformations import (OMPParallelLoopTrans,
+                                          TransformationError)
+    from psyclone.psyir.transformations import OMPLoopTrans
+    bodies = {
+        "scalar-reduction": "  do i = 1, 8\n    t = t + a(i)\n  end do\n",
+        "carried-dependence": "  do i = 2, 8\n    a(i) = a(i - 1) + 1.0\n"
+                              "  end do\n",
+        "write-write": "  do i = 1, 8\n    a(1) = b(i)\n  end do\n",
+    }
+    for key, body in bodies.items():
+        src = HEAD + body + "end subroutine s\n"
+        for trans in (OMPParallelLoopTrans(), OMPLoopTrans()):
+            loop = FortranReader().psyir_from_source(src).walk(Loop)[0]
+            try:
+                trans.validate(loop)
+            except TransformationError:
+                continue
+            return {"confirmed": True, "case": key,
+                    "input": {"source": src},
+                    "observed": f"{type(trans).__name__}.validate accepts "
+                    "the loop without 'force' although the dependence "
+                    "analysis does not report its iterations independent"}
+    return {"confirmed": False}
